@@ -819,6 +819,35 @@ def dotdot_layouts(res, tier):
         elif got - want:
             res.violation("depfile-cli:not-read:dotdot:" + shape, {"layout": k, "extra": sorted(got - want)})
         n += 1
+    # forced includes named the way build systems name them: resolved through the search path, not the working
+    # directory.  (That a forced include is missing from the list is the recorded finding clang-arg-include; what is
+    # judged here is the other half: nothing is listed that was not read, every listed path exists.)
+    for k, (flag, where) in enumerate([("-I", "inc"), ("-iquote", "quoted"), ("-isystem", "sys")]):
+        d = os.path.join(base, "f%d" % k)
+        os.makedirs(os.path.join(d, where))
+        with open(os.path.join(d, where, "conf.h"), "w") as f:
+            f.write("#define CONF_N 4\n")
+        with open(os.path.join(d, "main.h"), "w") as f:
+            f.write("struct uses_conf { int a[CONF_N]; };\n")
+        cargs = [flag + where if flag == "-I" else flag, where][:1] if flag == "-I" else [flag, where]
+        cargs = cargs + ["-include", "conf.h"]
+        pc = subprocess.run(["clang", "-M", "-MF", "clang.d"] + cargs + ["main.h"], cwd=d, stdout=subprocess.PIPE,
+                            stderr=subprocess.PIPE, text=True)
+        if pc.returncode != 0:
+            continue        # this search-path kind does not resolve forced includes: nothing to judge
+        want = {os.path.realpath(os.path.join(d, x)) for x in read_clang_depfile(open(os.path.join(d, "clang.d")).read())}
+        p = subprocess.run([C.BINDGEN, "--formatter=none", "main.h", "-o", "out.rs", "--depfile", "cli.d", "--"] + cargs,
+                           cwd=d, stdout=subprocess.PIPE, stderr=subprocess.PIPE, text=True, timeout=120)
+        if p.returncode != 0:
+            res.violation("forced-include-layout:generation-failed", {"layout": k, "stderr": p.stderr[-400:]})
+            continue
+        _, deps = read_depfile(open(os.path.join(d, "cli.d")).read())
+        ghosts = sorted(x for x in deps if not os.path.exists(os.path.join(d, x)))
+        extra = sorted({os.path.realpath(os.path.join(d, x)) for x in deps} - want)
+        if ghosts or extra:
+            res.violation("depfile-cli:not-read:forced-include-through-%s" % flag.strip("-"),
+                          {"layout": k, "listed": deps, "clang_M": sorted(want), "nonexistent": ghosts})
+        n += 1
     res.add(dotdot_symlink_layouts=n)
 
 
